@@ -42,8 +42,8 @@ func (t *tracer) log(e event) {
 
 func main() { lib.Main("C32", run) }
 
-func mcCfg(prods string, live bool) []byte {
-	s := "CONSTANTS Prods = " + prods + " InCap = 2\nSPECIFICATION Spec\nINVARIANT Serial NoLostRedraw FullKept OneFinal FirstReturnWins FifoPerProducer HandledOnce\nPROPERTY NothingAfterFinal"
+func mcCfg(prods string, live bool, cb int) []byte {
+	s := "CONSTANTS Prods = " + prods + " InCap = 2 CbBudget = " + fmt.Sprint(cb) + "\nSPECIFICATION Spec\nINVARIANT Serial NoLostRedraw FullKept OneFinal FirstReturnWins FifoPerProducer HandledOnce\nPROPERTY NothingAfterFinal"
 	if live {
 		s += " EventuallyRedrawn"
 	}
@@ -57,19 +57,28 @@ func run(c *lib.Ctx) error {
 	}
 	c.Set("rule", "a V case is one run of the real loop (2-4 producers, handlers that request redraws/returns); distinct by its recorded event sequence; runs with fewer than 4 producer operations are not counted")
 	// ---- M
-	prods := "{1, 2}"
+	// two producers with a redraw callback that may itself request a redraw (both tiers); three
+	// producers with a silent callback in the thorough tier (with CbBudget = 1 that configuration has
+	// several million states and does not finish the liveness check in the time allowed)
+	type mc struct {
+		prods string
+		cb    int
+	}
+	mcs := []mc{{"{1, 2}", 1}}
 	if c.Thorough() {
-		prods = "{1, 2, 3}"
+		mcs = append(mcs, mc{"{1, 2, 3}", 0})
 	}
-	r, err := c.TLC("MCLoop "+prods, lib.TLCRun{Dir: dir, Module: "MCLoop", Workers: 8, Timeout: 14 * time.Minute, HeapGB: 12,
-		Files: map[string][]byte{"MCLoop.cfg": mcCfg(prods, true)}})
-	if err != nil {
-		return err
+	for _, m := range mcs {
+		r, err := c.TLC(fmt.Sprintf("MCLoop %s cb=%d", m.prods, m.cb), lib.TLCRun{Dir: dir, Module: "MCLoop", Workers: 8, Timeout: 14 * time.Minute, HeapGB: 12,
+			Files: map[string][]byte{"MCLoop.cfg": mcCfg(m.prods, true, m.cb)}})
+		if err != nil {
+			return err
+		}
+		if r.ErrKind != "" {
+			return lib.Infra("the loop MODEL violates %s %s — model and code must be re-examined before any verdict:\n%s", r.ErrKind, r.ErrName, r.ErrTrace)
+		}
+		c.Logf("model %s cb=%d: %d distinct states", m.prods, m.cb, r.Distinct)
 	}
-	if r.ErrKind != "" {
-		return lib.Infra("the loop MODEL violates %s %s — model and code must be re-examined before any verdict:\n%s", r.ErrKind, r.ErrName, r.ErrTrace)
-	}
-	c.Logf("model: %d distinct states", r.Distinct)
 
 	// ---- vacuity guard: the trace spec must reject a corrupted trace
 	good := oneRun(rand.New(rand.NewSource(12345)), 3, 5, 2)
